@@ -331,6 +331,64 @@ def is_compatible_order(forest, order):
     return True
 
 
+class OrderChecker(object):
+    """is_compatible_order for big forests: children lists and a post-order are computed once, each order is then
+    checked in O(n) (a clone's earliest own point must come after the latest point of its strict descendants)."""
+
+    def __init__(self, forest):
+        self.forest = forest
+        self.idxs = forest.data_idxs()
+        self.kids = [[] for _ in range(forest.K)]
+        for j, p in enumerate(forest.parent):
+            if p is not None:
+                self.kids[p].append(j)
+        self.post = []
+        stack = [(t, False) for t in forest.tops()]
+        while stack:
+            i, done = stack.pop()
+            if done:
+                self.post.append(i)
+            else:
+                stack.append((i, True))
+                stack.extend((c, False) for c in self.kids[i])
+
+    def ok(self, order):
+        if sorted(order) != self.idxs:
+            return False
+        pos = {x: k for k, x in enumerate(order)}
+        latest = {}
+        for i in self.post:
+            sub = max([latest[c] for c in self.kids[i]] + [-1])
+            own = [pos[x] for x in self.forest.blocks[i]]
+            if own and min(own) < sub:
+                return False
+            latest[i] = max(own + [sub])
+        return True
+
+    def symmetric_pairs(self, limit=60000):
+        """Pairs of data points exchanged by a symmetry of the forest (first points of sibling clones whose subtrees
+        have the same shape and block sizes): under the uniform law each of the two relative orders has probability
+        exactly one half."""
+        f = self.forest
+        canon = {}
+        for i in self.post:
+            canon[i] = (len(f.blocks[i]), tuple(sorted(canon[c] for c in self.kids[i])))
+        pairs = []
+        groups = [f.tops()] + self.kids
+        for g in groups:
+            by = {}
+            for c in g:
+                if f.blocks[c]:
+                    by.setdefault(canon[c], []).append(c)
+            for cls in by.values():
+                for a in range(len(cls)):
+                    for b in range(a + 1, len(cls)):
+                        pairs.append((min(f.blocks[cls[a]]), min(f.blocks[cls[b]])))
+                        if len(pairs) >= limit:
+                            return pairs
+        return pairs
+
+
 # ----------------------------------------------------------------------------- max-product CCF assignment (C10)
 def maxprod_value_bruteforce(forest, own_loglik, G):
     """Max over feasible index assignments (clone >= sum children, tops sum <= G-1) of the summed per-clone
